@@ -21,7 +21,7 @@ from .. import facts as F
 from . import C12, C14, C15
 
 EXPLANATION = __doc__
-TECHNIQUE = "interval abstract interpretation over ssa terms with exact carry/remainder relations and trace partitioning on carries (inductive limb-bound invariants, overflow-assert discharge); R-BUILD (rustc type check with the crate's lint levels), both backends checked against one specification: table oracle, limb-polynomial identities, exponent chains, canonical-predicate rules"
+TECHNIQUE = "interval abstract interpretation over ssa terms with exact carry/remainder relations and trace partitioning on carries (inductive limb-bound invariants, overflow-assert discharge); R-BUILD (rustc type check with the crate's lint levels), both backends checked against one specification: table oracle, limb-polynomial identities, exponent chains, canonical-predicate rules; level (type-state) dataflow over every fe32 operation call site of the crate against the proved 3xTIGHT operand contract, who-may-access rule for Fe limbs"
 
 
 def run(ctx):
